@@ -37,8 +37,21 @@ func (c07Prop) Gen(seed uint64, tier string, i int) Case {
 	g := &GenCfg{Avoid: mergeAvoid("at-start-end"), MaxDepth: 3, W: c.Window, Lookback: c.Engine.LookbackMs}
 	c.Dataset = GenDataset(r.Fork(), c.Window, c.Engine.LookbackMs, 24, false, r.P(0.2))
 	c.Query = GenQuery(r.Fork(), g)
+	if r.P(0.1) {
+		// two series that differ in the metric name only and hand over inside the window, under
+		// something that drops the name: one output series whose points come from both, whatever the
+		// position of the hand-over inside the engine's batches
+		for k := 0; k < 1+r.Intn(2); k++ {
+			AddTwin(r, &c.Dataset, c.Window, c.Engine.LookbackMs, false, true)
+		}
+		c.Dataset.Normalize()
+		c.Query = Pick(r, c07Twins)
+	}
 	return c
 }
+
+var c07Twins = []string{`abs({__name__=~"m.*"})`, `{__name__=~"m0|m1"} * 2`, `timestamp({__name__=~"m.+"})`, `sum by (a, b, c) (abs({__name__=~"m.*"}))`,
+	`clamp_min({__name__=~"m.*"}, 0)`, `1 + {__name__=~"m.*"}`, `{__name__=~"m.*"} > bool 1`, `ceil(-{__name__=~"m.*"})`, `deg({__name__=~"m.*"}) + on(a, b, c) m0`}
 
 // atTime extracts the samples of a canonical result at time t as a vector-typed result.
 func atTime(res Result, t int64) Result {
@@ -120,7 +133,16 @@ func (c07Prop) Check(c Case) Outcome {
 		}
 	}
 	if rng.Res.Err != nil && !anyInstErr && len(idx) == steps {
-		cand = append(cand, Violation{"range-error-only", fmt.Sprintf("the range query fails (%v) but every instant query on its grid succeeds", rng.Res.Err)})
+		// The reference engine itself gives up the equality in one place: the result of a negation or of
+		// a function over a range vector must not contain a label set twice anywhere in the window, so
+		// two series that differ in the metric name only and follow each other in time fail the range
+		// query and none of its instant queries. Where the reference's range query fails as well, the
+		// engine is only doing what C01 demands.
+		if ref := RunReference(ctx, NewStore(c.Dataset, c.Store), c.Engine, c.Query, c.Window); ref.Res.Err != nil {
+			o.Count("range_error_shared_with_reference", 1)
+		} else {
+			cand = append(cand, Violation{"range-error-only", fmt.Sprintf("the range query fails (%v) but every instant query on its grid succeeds (and the reference engine's range query succeeds)", rng.Res.Err)})
+		}
 	}
 	if rng.Res.Err == nil && anyInstErr {
 		cand = append(cand, Violation{"instant-error-only", "an instant query on the grid fails but the range query succeeds"})
